@@ -164,6 +164,13 @@ def gen_case(rng):
     return {'shape': list(shape), 'keypoints': S.random_kps(rng, shape), 'seed': R.pick_seed(rng)}
 
 
+def check_near(case, viol):
+    import search.C19 as C19
+    bad = C19.check_near(case, faces=False, check_boxes=False)
+    if bad and bad[0] in ('keypoint-frame', 'image-window', 'raises', 'empty-window'):
+        viol.append({'site': 'C03:RandomCropNearBBox:%s' % bad[0], 'kind': 'near', 'case': case, 'observed': bad[1], 'expected': bad[2]})
+
+
 def run(seed=0, tier='quick', hints=None, broken=False):
     rng = random.Random(seed * 7919 + 3)
     n = 6 if tier == 'quick' else 150
@@ -219,6 +226,16 @@ def run(seed=0, tier='quick', hints=None, broken=False):
             check_lattice('CropAndPad', [c], case, viol)
             evals += 1
             seen.add(('CropAndPad-sweep', repr(c['args'].get('px', c['args'].get('percent')))))
+    # RandomCropNearBBox: keypoints are expressed in the CLAMPED window the image shows, also when the drawn window
+    # passes the near or the far faces of the volume (oracle shared with C19)
+    import search.C19 as C19
+    for i in range(8 if tier == 'quick' else 200):
+        case = C19.gen_case(rng, 'near', touch_far=(i % 4 == 0), touch_low=(i % 4 == 2))
+        if i % 2 == 0:
+            case['seed'] = R.EXT_BASE + [0xFFFF, 0x0000, 0xAAAA, 0x5555, rng.getrandbits(16)][(i // 2) % 5]
+        check_near(case, viol)
+        evals += 1
+        seen.add(('RandomCropNearBBox', tuple(case['shape']), i % 4))
     # free rotations (Rotate, ShiftScaleRotate): annotations vs the affine map fitted to marked voxels
     for case in RC.sweep(rng) * (1 if tier == 'quick' else 6):
         case = dict(case, seed=rng.randint(0, 10 ** 6))
@@ -236,7 +253,9 @@ def run(seed=0, tier='quick', hints=None, broken=False):
 
 def replay(v):
     viol = []
-    if v.get('kind') == 'rotation':
+    if v.get('kind') == 'near':
+        check_near(v['case'], viol)
+    elif v.get('kind') == 'rotation':
         check_rotation(v['case'], viol)
     elif v.get('kind') == 'croppad':
         check_crop_and_pad_keep(v['case'], viol)
